@@ -436,6 +436,7 @@ const C09_MACHINES: [&str; 12] = [
     "proportion::Stats",
     "quantile::Stats",
 ];
+const C08_REFUSAL_MACHINES: [&str; 2] = ["Paired<f32>", "Paired<f64>"];
 const C05_MACHINES: [&str; 4] = ["Geometric<f32>", "Geometric<f64>", "Harmonic<f32>", "Harmonic<f64>"];
 
 struct Ctx {
@@ -615,16 +616,22 @@ fn run_c08(ctx: &Ctx) -> i32 {
     } else {
         Batch::default()
     };
+    // histories in which a call is refused half-way (Paired::extend over streams of unequal length):
+    // whatever the refused call keeps of what it consumed, the sums the state carries afterwards
+    // must stay within the bound of the exact sums of the observations its count reports
+    let n_ref = if thorough { 400_000 } else { 12_000 };
+    let mut b4 = if b1.violations.is_empty() && b2.violations.is_empty() { fault_batch("C08", &C08_REFUSAL_MACHINES, n_ref, faulty::Mode::Totality, ctx.seed ^ 0x88, "histories containing refused calls (Paired::extend over unequal streams; sums judged against the observations the count reports)") } else { Batch::default() };
+    b4.violations.retain(|_, (_, _, v)| v.property == "C08");
     let rule = "one evaluation = one seeded history (deliveries in 6 register styles, merges in 4 orientations, forks, empty operands, queries, final reduction by one of 5 merge policies) executed on the real KahanSum/Arithmetic and checked against the exact rational sum; distinct = distinct event-shape sequences (event kind, style, operator, chunk-length bucket; data erased); non-trivial = at least one merge and two non-empty deliveries";
     let assumptions = ["exact reference = fixed-point super-accumulator + num-bigint (sim/src/exact.rs)", "K = 8, bound (K*u + 4*n*u^2)*sum|x| (DESIGN 5.2)", "tape magnitudes bounded so that no sum overflows"];
-    let firsts: Vec<&(u64, Art, Violation)> = [&b1, &b2, &b3].iter().filter_map(|b| b.first_violation()).collect();
+    let firsts: Vec<&(u64, Art, Violation)> = [&b1, &b2, &b3, &b4].iter().filter_map(|b| b.first_violation()).collect();
     let mut new = 0;
     if let Some((_, a, v)) = firsts.first() {
         if report(ctx, a, v) {
             new = 1;
         }
     }
-    write_partial(ctx, "exploration", &[&b1, &b2, &b3], new, rule, &assumptions, json!({}), None);
+    write_partial(ctx, "exploration", &[&b1, &b2, &b3, &b4], new, rule, &assumptions, json!({}), None);
     if new > 0 {
         1
     } else {
